@@ -9,7 +9,7 @@ from typing import Any
 from . import seqs
 
 WF_KINDS = ["const", "ramp", "blackman", "interp", "composite"]
-PHASE_KINDS = ["zero", "const", "jump"]
+PHASE_KINDS = ["zero", "const", "jump", "pi_echo"]   # pi_echo: phases exactly 0 and pi (sin(pi) is 1e-16 in floating point)
 DMM_KINDS = ["none", "zeros", "all"]
 SLM_KINDS = ["none", "subset"]
 DT_KINDS = ["divides", "not_divides", "lt1", "gt_T"]
@@ -51,7 +51,7 @@ def sequence_spec(rng: random.Random, n: int, wf_kind: str, phase_kind: str, dmm
         amp_scale = min(amp_scale, 10.0)
         det_scale = min(det_scale, 30.0)
         duration = max(16, (duration // 4) * 4)
-    if phase_kind == "jump":
+    if phase_kind in ("jump", "pi_echo"):
         d1 = max(4, (duration // 2 // 4) * 4) if modulation else max(2, duration // 2)
         d2 = duration - d1
         durs = [d1, d2] if d2 >= (16 if modulation else 2) else [duration]
@@ -59,7 +59,8 @@ def sequence_spec(rng: random.Random, n: int, wf_kind: str, phase_kind: str, dmm
         durs = [duration]
     if modulation:
         durs = [max(16, (x // 4) * 4) for x in durs]
-    phases = {"zero": [0.0, 0.0], "const": [rng.uniform(0.2, 3.0)] * 2, "jump": [rng.uniform(0.0, 3.0), rng.uniform(-3.0, 3.0)]}[phase_kind]
+    phases = {"zero": [0.0, 0.0], "const": [rng.uniform(0.2, 3.0)] * 2, "jump": [rng.uniform(0.0, 3.0), rng.uniform(-3.0, 3.0)],
+              "pi_echo": rng.choice([[0.0, math.pi], [math.pi, 0.0], [math.pi, math.pi / 2], [0.0, -math.pi]])}[phase_kind]
     for i, d in enumerate(durs):
         spec["ops"].append({"op": "add", "ch": "ryd", "pulse": {"amp": _wf(rng, wf_kind, d, amp_scale, True), "det": _wf(rng, rng.choice(["const", "ramp", "interp"]), d, det_scale, False), "phase": phases[i]}})
     if dmm_kind != "none" and not modulation:
